@@ -16,6 +16,7 @@ import (
 
 	"verif/harness/cluster"
 	"verif/harness/puppet"
+	"verif/harness/simnet"
 	"verif/harness/vfx"
 	"verif/harness/wire"
 )
@@ -38,6 +39,8 @@ type Plan struct {
 	Peers  int
 	GTDMs  int  // GossipToTheDeadTime of the subject (short, so that the reaper runs)
 	Faulty bool // lossy network
+	Frozen bool `json:",omitempty"` // the subject also knows a frozen member: it swallows packets, accepts streams and never answers
+	TCPMs  int  `json:",omitempty"` // TCPTimeout of the subject (0 = 400 ms); 10 s is the documented default, far beyond the probe interval
 	Groups []Group
 }
 
@@ -46,6 +49,8 @@ var queryKinds = []string{"members", "nummembers", "localnode", "health", "pv", 
 func genPlan(t *rapid.T) Plan {
 	p := Plan{Seed: rapid.Uint64Range(1, 1<<40).Draw(t, "seed"), Peers: rapid.IntRange(0, 3).Draw(t, "peers"),
 		GTDMs: rapid.SampledFrom([]int{500, 2000}).Draw(t, "gtd"), Faulty: rapid.IntRange(0, 3).Draw(t, "faulty") == 0}
+	p.Frozen = rapid.Bool().Draw(t, "frozen")
+	p.TCPMs = rapid.SampledFrom([]int{400, 400, 10000}).Draw(t, "tcpms")
 	ng := rapid.IntRange(1, 7).Draw(t, "ngroups")
 	shutdown := false
 	leaveInFlight := false
@@ -147,9 +152,18 @@ func run(pl Plan) (res vfx.Result) {
 	}
 	c := cluster.New(pl.Seed)
 	const P = 500
+	tcpMs := pl.TCPMs
+	if tcpMs == 0 {
+		tcpMs = 400
+	}
+	tcpTO := time.Duration(tcpMs) * time.Millisecond
 	mk := func(i int) puppet.NodeConf {
-		return puppet.NodeConf{Name: fmt.Sprintf("n%d", i), IP: fmt.Sprintf("10.0.0.%d", i+1), Port: 7946, IndirectChecks: 2, ProbeIntervalMs: P, ProbeTimeoutMs: 150,
+		nc := puppet.NodeConf{Name: fmt.Sprintf("n%d", i), IP: fmt.Sprintf("10.0.0.%d", i+1), Port: 7946, IndirectChecks: 2, ProbeIntervalMs: P, ProbeTimeoutMs: 150,
 			GossipIntervalMs: 100, PushPullMs: 2000, TCPTimeoutMs: 400, GossipToDeadMs: pl.GTDMs, AwarenessMax: 2, SuspicionMult: 2}
+		if i == 0 {
+			nc.TCPTimeoutMs = tcpMs
+		}
+		return nc
 	}
 	sub, err := c.Start(mk(0))
 	if err != nil {
@@ -165,6 +179,11 @@ func run(pl Plan) (res vfx.Result) {
 		}
 		peers = append(peers, nd)
 		_, _ = nd.M.Join([]string{sub.Addr()})
+	}
+	if pl.Frozen {
+		fz := c.Net.NewEndpoint("10.0.0.77", 7946, frozenPeer{})
+		c.Net.SendFrom(fz.Addr(), sub.Addr(), wire.Encode(wire.AliveMsg, &wire.Alive{Incarnation: 1, Node: "frozen", Addr: []byte{10, 0, 0, 77}, Port: 7946, Vsn: []uint8{1, 5, 2, 0, 0, 0}}))
+		labels["frozen-member"] = true
 	}
 	if pl.Faulty {
 		c.SetFaults(cluster.Faults{LossPct: 30, DupPct: 10, MinLatUs: 50, MaxLatUs: 50000, RefusePct: 20, CutPct: 20}, true)
@@ -202,7 +221,7 @@ func run(pl Plan) (res vfx.Result) {
 				userDialTimes = append(userDialTimes, c.Net.Now())
 				smu.Unlock()
 				_, _ = m.Join([]string{a})
-				bound = 2*400*time.Millisecond + 50*time.Millisecond
+				bound = 2*tcpTO + 50*time.Millisecond
 			case "leave":
 				smu.Lock()
 				sd := shutdownReturned >= 0
@@ -254,7 +273,7 @@ func run(pl Plan) (res vfx.Result) {
 				userDialTimes = append(userDialTimes, c.Net.Now())
 				smu.Unlock()
 				_ = m.SendReliable(n, []byte(userMarker+"rel"))
-				bound = 2*400*time.Millisecond + 50*time.Millisecond
+				bound = 2*tcpTO + 50*time.Millisecond
 			case "ping":
 				a, _ := peerAddr(cl.Arg)
 				_, _ = m.Ping("ghost", &simAddr{a})
@@ -316,6 +335,9 @@ func run(pl Plan) (res vfx.Result) {
 		_ = nd.M.Shutdown()
 	}
 	time.Sleep(5 * time.Second)
+	if tcpTO > 4*time.Second {
+		time.Sleep(tcpTO) // exchanges bounded by TCPTimeout only (see below) must be gone when the bubble exits
+	}
 	// nothing of the subject reached the network after Shutdown returned
 	cd := wire.Codec{}
 	for i, e := range c.Net.Events() {
@@ -351,6 +373,81 @@ func run(pl Plan) (res vfx.Result) {
 			}
 		}
 	}
+	// streams of the subject: a TCP fallback ping belongs to its probe and is closed by the probe's deadline (one
+	// awareness-scaled probe interval after the probe began, at most AwarenessMax = 2 intervals), whatever TCPTimeout
+	// says. Other exchanges (push/pull, user streams) are bounded by TCPTimeout only: when that exceeds the scaled probe
+	// interval and the peer stalls, they outlive Shutdown by up to TCPTimeout - the listed finding
+	// C20-stream-outlives-shutdown; beyond TCPTimeout nothing may remain (the bubble must exit).
+	type life struct {
+		dial, closed time.Duration
+		kind         string
+		dst          string
+		inbound      bool
+	}
+	conns := map[int]*life{}
+	for _, e := range c.Net.Events() {
+		switch e.Kind {
+		case "dial":
+			if e.Src == sub.Addr() || e.Dst == sub.Addr() {
+				conns[e.Conn] = &life{dial: e.T, closed: -1, dst: e.Dst, inbound: e.Dst == sub.Addr()}
+			}
+		case "swrite":
+			l := conns[e.Conn]
+			if l == nil || l.kind != "" || (e.Src == sub.Addr()) == l.inbound {
+				continue // only the dialer's first write names the exchange
+			}
+			l.kind = "other"
+			if sm, err := cd.DecodeStream(e.Data); err == nil {
+				switch sm.Type {
+				case wire.PingMsg:
+					l.kind = "ping"
+				case wire.PushPullMsg:
+					l.kind = "pushpull"
+				case wire.UserMsg:
+					l.kind = "user"
+				}
+			}
+		case "sclose":
+			if l := conns[e.Conn]; l != nil && l.closed < 0 && e.Src == sub.Addr() {
+				l.closed = e.T
+			}
+		}
+	}
+	endT := c.Net.Now()
+	outlived := 0
+	for id, l := range conns {
+		if l.kind == "ping" && !l.inbound {
+			labels["tcp-ping-stream"] = true
+			if (l.closed < 0 && endT-l.dial > 2*P*time.Millisecond) || l.closed-l.dial > 2*P*time.Millisecond {
+				labels["tcp-ping-stalled"] = true
+				setErr(fmt.Errorf("TCP fallback ping stream %d to %s opened at %v was still open %v later (closed at %v; probe interval %v, at most 2 intervals when scaled; TCPTimeout %v): the probe outlives its deadline", id, l.dst, l.dial, endT-l.dial, l.closed, P*time.Millisecond, tcpTO))
+			}
+			continue
+		}
+		// anything else still held by the node more than one scaled probe interval after Shutdown returned
+		if l.closed < 0 || l.closed > sdAt+2*P*time.Millisecond {
+			if l.dial > sdAt || l.inbound {
+				// dials after Shutdown are reported above; an inbound connection may sit unaccepted in the closed
+				// transport's backlog (the handler goroutines of accepted ones are covered by the bubble exit)
+				continue
+			}
+			outlived++
+			logf("stream %d (%s, inbound=%v) opened at %v still held at %v (closed %v), Shutdown returned at %v", id, l.kind, l.inbound, l.dial, sdAt+2*P*time.Millisecond, l.closed, sdAt)
+			if l.closed >= 0 && l.closed-l.dial > tcpTO+50*time.Millisecond {
+				setErr(fmt.Errorf("stream %d (%s) of the node stayed open for %v, beyond TCPTimeout %v", id, l.kind, l.closed-l.dial, tcpTO))
+			}
+		}
+	}
+	if outlived > 0 {
+		labels["stream-outlives-shutdown"] = true
+		if tcpTO <= 2*P*time.Millisecond {
+			setErr(fmt.Errorf("%d stream exchange(s) of the node were still open one scaled probe interval after Shutdown returned although TCPTimeout is only %v (history above)", outlived, tcpTO))
+		} else if vfx.IsKnown("C20-stream-outlives-shutdown") {
+			res.Known = "C20-stream-outlives-shutdown"
+		} else {
+			setErr(fmt.Errorf("%d stream exchange(s) of the node were still open one scaled probe interval after Shutdown returned (bounded only by TCPTimeout %v)", outlived, tcpTO))
+		}
+	}
 	// dials attempted on the closed transport after the wind-down period can only be the harness's own calls
 	lateDials, lateUser := 0, 0
 	for _, e := range c.Net.Events() {
@@ -378,4 +475,13 @@ func (a *simAddr) String() string  { return a.s }
 func TestLifecycle(t *testing.T) {
 	theT = t
 	vfx.Check(t, genPlan, runPlan)
+}
+
+// frozenPeer is a member whose process is stopped: the kernel still accepts connections, nothing is ever answered.
+type frozenPeer struct{}
+
+func (frozenPeer) OnPacket(*simnet.Endpoint, string, []byte) {}
+func (frozenPeer) OnStream(_ *simnet.Endpoint, _ string, c *simnet.Conn) {
+	_, _ = c.ReadAllFor(30 * time.Second)
+	c.Close()
 }
